@@ -27,6 +27,10 @@ pub fn serialize(
 pub fn deserialize(data: Bytes) -> Result<RtmpMessage, MessageDeserializationError> {
     let mut cursor = Cursor::new(data);
     let mut arguments = rml_amf0::deserialize(&mut cursor)?;
+    if arguments.len() < 3 {
+        // A command requires a name, a transaction id, and a command object
+        return Err(MessageDeserializationError::InvalidMessageFormat);
+    }
 
     let command_name: String;
     let transaction_id: f64;
